@@ -101,8 +101,12 @@ pub fn check_cover(run: &mut Run, set: &[MCell], ids: &[u64], ids2: &[u64], flav
             if o2 != out {
                 let mut s2 = o2.clone();
                 s2.sort_unstable();
-                let kind = if s2 == sorted { "C08.order_sequence" } else { "C08.order" };
-                run.violation(kind, case(), format!("a permutation / different multiplicity of the same set compacts to a different result ({} vs {} cells)", o2.len(), out.len()));
+                if s2 == sorted {
+                    // same set, different sequence: the property is about the set; recorded, not judged
+                    run.count("order.same_set_in_a_different_sequence");
+                } else {
+                    run.violation("C08.order", case(), format!("a permutation / different multiplicity of the same set compacts to a different set ({} vs {} cells)", o2.len(), out.len()));
+                }
             }
         }
         Err(e) => run.violation("C08.ok", case(), format!("compact failed on a permutation: {e}")),
